@@ -11,7 +11,8 @@ THIRTEEN = ["bulkhead", "ratelimiter", "circuit", "retry", "timelimiter", "cache
             "adaptive", "coalesce", "executor", "chaos"]
 # name in the op language -> the middleware it is a configuration of
 BASE = {n: n for n in THIRTEEN}
-BASE.update({"timelimiter_nocancel": "timelimiter", "hedge1": "hedge", "hedge_fire": "hedge", "hedge_parallel": "hedge"})
+BASE.update({"timelimiter_nocancel": "timelimiter", "hedge1": "hedge", "hedge_fire": "hedge", "hedge_parallel": "hedge",
+             "circuit_slow": "circuit"})
 VARIANTS = THIRTEEN + ["timelimiter_nocancel", "hedge1", "hedge_fire", "hedge_parallel"]
 HEDGES_THAT_REPOLL = ("hedge", "hedge_fire", "hedge_parallel")
 
@@ -66,7 +67,53 @@ def _script(rng, first=None):
     return steps
 
 
+QUIET = ["bulkhead", "ratelimiter", "circuit", "timelimiter", "fallback", "adaptive", "executor", "chaos", "coalesce"]
+
+
+def _finish(ops, rounds=4):
+    ops.append("settle")
+    for _ in range(rounds):
+        ops.append("adv 25")
+        ops.append("settle")
+    ops.append("probe listeners")
+
+
+def gen_cache_same_key(rng):
+    """two requests with the same cache key (tag mod 1000) whose inner calls overlap: both miss, each must get the
+    response of its OWN inner call (transparency), whatever sits around the cache"""
+    layers = [rng.choice(QUIET) for _ in range(rng.randint(0, 2))]
+    layers.insert(rng.randint(0, len(layers)), "cache")
+    t = rng.randint(1, 99)
+    lp = rng.choice([0, 0, 1, 5])
+    ops = ["arrive 1 tag=%d inner=%d:ok" % (t, rng.choice([5, 20])),
+           "arrive 2 tag=%d inner=%d:ok" % (t + 1000, rng.choice([5, 5, 20]))]
+    order = [1, 2]
+    rng.shuffle(order)
+    ops += ["poll %d" % order[0], "poll %d" % order[1]]
+    _finish(ops)
+    return {"header": "stack layers=%s inner=strict lp=%d" % (",".join(layers), lp), "ops": ops}
+
+
+def gen_slow_listener(rng):
+    """a listener that takes wall time (and perhaps panics) while slow-call detection is on: the time a listener takes
+    is not call time, so the breaker must behave as without listeners"""
+    # innermost: the listeners of layers BELOW it would run inside its call and legitimately count as call time
+    layers = [rng.choice(QUIET) for _ in range(rng.randint(0, 2))] + ["circuit_slow"]
+    ops = []
+    for c in range(1, rng.randint(4, 6)):
+        ops.append("arrive %d tag=%d inner=0:ok" % (c, c))
+        ops.append("settle")
+    _finish(ops, rounds=2)
+    return {"header": "stack layers=%s inner=strict lp=%d ls=%d lsms=%d" % (
+        ",".join(layers), rng.choice([0, 0, 2, 4]), rng.randint(1, 7), rng.choice([45, 90])), "ops": ops}
+
+
 def gen(rng, tier):
+    r0 = rng.random()
+    if r0 < 0.04:
+        return gen_cache_same_key(rng)
+    if r0 < 0.08:
+        return gen_slow_listener(rng)
     r = rng.random()
     doc = False
     if r < 0.30:
